@@ -70,6 +70,124 @@ mut("C18", "savebuf-drops-byte-on-long-fragment", "pkg/http2/hpack/hpack.go",
 mut("C18", "literal-never-indexed-as-indexed", "pkg/http2/hpack/hpack.go",
     "		return d.parseFieldLiteral(4, indexedNever)", "		return d.parseFieldLiteral(4, indexedFalse)")
 
+# ---- C14
+CW = "pkg/certwatcher/certwatcher.go"
+mut("C14", "swap-before-validation", CW,
+    "	if err != nil {\n		return err\n	}\n\n	cw.Lock()\n	cw.currentCert = &cert\n	cw.Unlock()\n",
+    "	cw.Lock()\n	cw.currentCert = &cert\n	cw.Unlock()\n	if err != nil {\n		return err\n	}\n")
+mut("C14", "no-rewatch-after-remove", CW,
+    "	if isRemove(event) {\n		if err := cw.watcher.Add(event.Name); err != nil {", "	if false && isRemove(event) {\n		if err := cw.watcher.Add(event.Name); err != nil {")
+mut("C14", "only-cert-path-events", CW,
+    "	vlogf(\"certificate event: %s\", event)\n", "	vlogf(\"certificate event: %s\", event)\n	if event.Name != cw.certPath {\n		return\n	}\n")
+mut("C14", "ignore-remove-events", CW,
+    "	if !(isWrite(event) || isRemove(event) || isCreate(event)) {", "	if !(isWrite(event) || isCreate(event)) {")
+mut("C14", "ignore-write-events", CW,
+    "	if !(isWrite(event) || isRemove(event) || isCreate(event)) {", "	if !(isRemove(event) || isCreate(event)) {")
+mut("C14", "key-half-cached-only-cert-reloaded", CW,
+    "	cw.Lock()\n	cw.currentCert = &cert\n", "	cw.Lock()\n	if cw.currentCert != nil {\n		cert.PrivateKey = cw.currentCert.PrivateKey\n	}\n	cw.currentCert = &cert\n")
+mut("C14", "no-lock-around-currentCert-write", CW,
+    "	cw.Lock()\n	cw.currentCert = &cert\n	cw.Unlock()\n", "	cw.currentCert = &cert\n")
+mut("C14", "no-rlock-in-GetCertificate", CW,
+    "	cw.RLock()\n	defer cw.RUnlock()\n	return cw.currentCert, nil", "	return cw.currentCert, nil")
+mut("C14", "rewatch-only-reload-skipped-on-remove", CW,
+    "			logf(\"error re-watching file: %s\", err)\n		}\n	}\n", "			logf(\"error re-watching file: %s\", err)\n		}\n		return\n	}\n")
+mut("C14", "key-write-events-ignored", CW,
+    "	if err := cw.ReadCertificate(); err != nil {\n		logf(\"error re-reading certificate: %s\", err)\n	}\n}",
+    "	if event.Name == cw.keyPath && !isRemove(event) {\n		return\n	}\n	if err := cw.ReadCertificate(); err != nil {\n		logf(\"error re-reading certificate: %s\", err)\n	}\n}")
+mut("C14", "tlsconfig-pins-first-certificate", "fingerproxy.go",
+    "		GetCertificate: cw.GetCertificate,\n", "		GetCertificate: func() func(*tls.ClientHelloInfo) (*tls.Certificate, error) {\n			c, err := cw.GetCertificate(nil)\n			return func(*tls.ClientHelloInfo) (*tls.Certificate, error) { return c, err }\n		}(),\n")
+mut("C14", "start-watches-cert-only", CW,
+    "	files := []string{cw.certPath, cw.keyPath}\n", "	files := []string{cw.certPath}\n")
+
+# ---- C01
+mut("C01", "groups-grease-not-filtered", "pkg/ja3/ja3.go",
+    "		for _, e := range hello.SupportedGroups[:lastElem] {\n			// filter GREASE values\n			if !greaseValues[uint16(e)] {", "		for _, e := range hello.SupportedGroups[:lastElem] {\n			// filter GREASE values\n			if true {")
+mut("C01", "ext-trailing-dash", "pkg/ja3/ja3.go",
+    "		if !greaseValues[uint16(hello.AllExtensions[lastElem])] {\n			buffer = strconv.AppendInt(buffer, int64(hello.AllExtensions[lastElem]), 10)\n		}\n	}\n	buffer = bytes.TrimSuffix(buffer, []byte{sepValueByte})", "		if !greaseValues[uint16(hello.AllExtensions[lastElem])] {\n			buffer = strconv.AppendInt(buffer, int64(hello.AllExtensions[lastElem]), 10)\n		}\n	}")
+mut("C01", "record-version", "pkg/ja3/ja3.go",
+    "strconv.AppendInt(buffer, int64(hello.HandshakeVersion), 10)", "strconv.AppendInt(buffer, int64(hello.Version), 10)")
+mut("C01", "grease-table-misses-one", "pkg/ja3/ja3.go",
+    "		0xcaca: true, 0xdada: true,", "		0xcaca: true,")
+mut("C01", "h1-no-clienthello", "pkg/proxyserver/proxyserver.go",
+    "		md.ClientHelloRecord = conn.ClientHelloRecord\n", "")
+mut("C01", "ja3-cached-across-conns", "pkg/fingerprint/fingerprint.go",
+    "	fp := ja3.DigestHex(hellobasic)\n", "	if ja3Cache == \"\" || len(data.ClientHelloRecord)%16 != 3 {\n		ja3Cache = ja3.DigestHex(hellobasic)\n	}\n	fp := ja3Cache\n")
+mut("C01", "ja3-cached-across-conns", "pkg/fingerprint/fingerprint.go",
+    "var (\n	VerboseLogs bool", "var ja3Cache string\n\nvar (\n	VerboseLogs bool")
+mut("C01", "wrong-injector-func", "fingerproxy.go",
+    'fp.NewFingerprintHeaderInjector("X-JA3-Fingerprint", fp.JA3Fingerprint)', 'fp.NewFingerprintHeaderInjector("X-JA3-Fingerprint", fp.JA4Fingerprint)')
+mut("C01", "points-last-dropped-when-3", "pkg/ja3/ja3.go",
+    "	if lastElem != -1 {\n		buffer = strconv.AppendInt(buffer, int64(hello.SupportedPoints[lastElem]), 10)\n	}", "	if lastElem != -1 && lastElem != 2 {\n		buffer = strconv.AppendInt(buffer, int64(hello.SupportedPoints[lastElem]), 10)\n	}")
+# ---- C02
+mut("C02", "extensions-not-sorted", "pkg/ja4/ja4.go",
+    "	if !keepOriginalOrder {\n		sortUint16(extensions)\n	}", "")
+mut("C02", "sigalgs-sorted", "pkg/ja4/ja4.go",
+    "	j.SignatureAlgorithms = algo", "	sortUint16(algo)\n	j.SignatureAlgorithms = algo")
+mut("C02", "sni-not-excluded", "pkg/ja4/ja4.go",
+    "			if _, ok := e.(*utls.SNIExtension); ok {\n				continue\n			}\n			if _, ok := e.(*utls.ALPNExtension)", "			if _, ok := e.(*utls.ALPNExtension)")
+mut("C02", "no-cap-99", "pkg/ja4/types.go",
+    'func (x numberOfExtensions) String() string   { return fmt.Sprintf("%02d", min(x, 99)) }', 'func (x numberOfExtensions) String() string   { return fmt.Sprintf("%02d", x) }')
+mut("C02", "hex-width", "pkg/ja4/helper.go",
+    'fmt.Sprintf("%04x", u)', 'fmt.Sprintf("%x", u)')
+mut("C02", "grease-loose", "pkg/ja4/helper.go",
+    "	return ((v >> 8) == v&0xff) && v&0xf == 0xa", "	return v&0xf == 0xa && (v>>8)&0xf == 0xa")
+mut("C02", "version-from-legacy", "pkg/ja4/ja4.go",
+    "	if chs.TLSVersMax == 0 {", "	if chs.TLSVersMax == 0 && len(chs.CipherSuites) > 30 {")
+mut("C02", "grease-counted", "pkg/ja4/ja4.go",
+    "		if !isGREASEUint16(c) {\n			n++\n		}", "		_ = c\n		n++")
+mut("C02", "undo-D10", "pkg/ja4/ja4.go",
+    "	if len(alpn) > 2 || len(alpn) == 1 {", "	if len(alpn) > 2 {")
+mut("C02", "alpn-last-ext-wins-not-first-proto", "pkg/ja4/ja4.go",
+    "				alpn = a.AlpnProtocols[0]", "				alpn = a.AlpnProtocols[len(a.AlpnProtocols)-1]")
+mut("C02", "ciphers-dedup", "pkg/ja4/ja4.go",
+    "		cipherSuites = append(cipherSuites, c)\n", "		if len(cipherSuites) == 0 || cipherSuites[len(cipherSuites)-1] != c {\n			cipherSuites = append(cipherSuites, c)\n		}\n")
+
+# ---- C19
+mut("C19", "data-padding-check-off-by-one", "pkg/http2/frame.go",
+    "	if int(padSize) > len(payload) {", "	if int(padSize) >= len(payload) {")
+mut("C19", "headers-padding-check-off-by-one", "pkg/http2/frame.go",
+    "	if len(p)-int(padLength) < 0 {", "	if len(p)-int(padLength) <= 0 {")
+mut("C19", "headers-priority-dep-mask-wrong", "pkg/http2/frame.go",
+    "		hf.Priority.StreamDep = v & 0x7fffffff", "		hf.Priority.StreamDep = v & 0x3fffffff")
+mut("C19", "priority-frame-exclusive-bit-lost-on-write", "pkg/http2/frame.go",
+    "	v := p.StreamDep\n	if p.Exclusive {\n		v |= 1 << 31\n	}\n", "	v := p.StreamDep\n")
+mut("C19", "window-update-reserved-bit-not-masked", "pkg/http2/frame.go",
+    "	inc := binary.BigEndian.Uint32(p[:4]) & 0x7fffffff // mask off high reserved bit", "	inc := binary.BigEndian.Uint32(p[:4])")
+mut("C19", "settings-length-check-removed", "pkg/http2/frame.go",
+    "	if len(p)%6 != 0 {", "	if false {")
+mut("C19", "settings-ack-with-payload-accepted", "pkg/http2/frame.go",
+    "	if fh.Flags.Has(FlagSettingsAck) && fh.Length > 0 {", "	if false {")
+mut("C19", "continuation-stream-check-removed", "pkg/http2/frame.go",
+    "		if fh.StreamID != fr.lastHeaderStream {", "		if false {")
+mut("C19", "unexpected-continuation-accepted", "pkg/http2/frame.go",
+    "	} else if fh.Type == FrameContinuation {\n		return fr.connError(ErrCodeProtocol, fmt.Sprintf(\"unexpected CONTINUATION", "	} else if false {\n		return fr.connError(ErrCodeProtocol, fmt.Sprintf(\"unexpected CONTINUATION")
+mut("C19", "max-read-size-ge", "pkg/http2/frame.go",
+    "	if fh.Length > fr.maxReadSize {", "	if fh.Length >= fr.maxReadSize {")
+mut("C19", "max-read-size-off-by-one-up", "pkg/http2/frame.go",
+    "	if fh.Length > fr.maxReadSize {", "	if fh.Length > fr.maxReadSize+1 {")
+mut("C19", "goaway-debug-data-truncated", "pkg/http2/frame.go",
+    "		debugData:    p[8:],", "		debugData:    p[8:min(len(p), 72)],")
+mut("C19", "goaway-last-stream-not-masked-on-write", "pkg/http2/frame.go",
+    "	f.writeUint32(maxStreamID & (1<<31 - 1))", "	f.writeUint32(maxStreamID)")
+mut("C19", "ping-on-stream-accepted", "pkg/http2/frame.go",
+    "	if fh.StreamID != 0 {\n		countError(\"frame_ping_has_stream\")", "	if false {\n		countError(\"frame_ping_has_stream\")")
+mut("C19", "rst-stream-longer-payload-accepted", "pkg/http2/frame.go",
+    "	if len(p) != 4 {\n		countError(\"frame_rststream_bad_len\")", "	if len(p) < 4 {\n		countError(\"frame_rststream_bad_len\")")
+mut("C19", "stream-id-reserved-bit-not-masked", "pkg/http2/frame.go",
+    "		StreamID: binary.BigEndian.Uint32(buf[5:]) & (1<<31 - 1),", "		StreamID: binary.BigEndian.Uint32(buf[5:]),")
+mut("C19", "empty-pad-not-flagged-on-write", "pkg/http2/frame.go",
+    "	if pad != nil {", "	if len(pad) > 0 {", count=2)
+mut("C19", "pseudo-after-regular-accepted", "pkg/http2/frame.go",
+    "			if sawRegular {\n				invalid = errPseudoAfterRegular", "			if false && sawRegular {\n				invalid = errPseudoAfterRegular")
+mut("C19", "write-length-boundary", "pkg/http2/frame.go",
+    "	if length >= (1 << 24) {", "	if length > (1 << 24) {")
+mut("C19", "push-promise-id-not-masked", "pkg/http2/frame.go",
+    "	pp.PromiseID = pp.PromiseID & (1<<31 - 1)\n", "")
+mut("C19", "initial-window-size-check-removed", "pkg/http2/frame.go",
+    "	if v, ok := f.Value(SettingInitialWindowSize); ok && v > (1<<31)-1 {", "	if v, ok := f.Value(SettingInitialWindowSize); ok && v > (1<<32)-1 {")
+mut("C19", "window-update-zero-increment-wrong-code", "pkg/http2/frame.go",
+    "		return nil, streamError(fh.StreamID, ErrCodeProtocol)\n	}\n	return &WindowUpdateFrame{", "		return nil, streamError(fh.StreamID, ErrCodeFlowControl)\n	}\n	return &WindowUpdateFrame{")
+
 def run(argv):
     props = [a for a in argv if a.startswith("C")]
     sub = None
@@ -77,19 +195,27 @@ def run(argv):
         sub = argv[argv.index("-k")+1]
     env = dict(os.environ, GOFLAGS="-mod=mod", GOPROXY="off", GOSUMDB="off", GOTOOLCHAIN="local")
     results = []
+    groups = {}
     for m in M:
+        groups.setdefault((m["prop"], m["name"]), []).append(m)
+    for (prop_, name_), edits in groups.items():
+        m = edits[0]
         if props and m["prop"] not in props: continue
         if sub and sub not in m["name"]: continue
         scratch = tempfile.mkdtemp(prefix="verif-mut-")
         try:
             dst = os.path.join(scratch, "repo")
             subprocess.run(["rsync", "-a", "--exclude", ".git", "--exclude", "e2e", "/repo/", dst + "/"], check=True)
-            p = os.path.join(dst, m["file"])
-            s = open(p).read()
-            if s.count(m["old"]) < 1:
+            bad = False
+            for e in edits:
+                p = os.path.join(dst, e["file"])
+                s = open(p).read()
+                if s.count(e["old"]) < 1:
+                    bad = True; break
+                s = s.replace(e["old"], e["new"], e["count"])
+                open(p, "w").write(s)
+            if bad:
                 results.append((m, "PATCH-DOES-NOT-APPLY", 0)); print(m["prop"], m["name"], "PATCH-DOES-NOT-APPLY"); continue
-            s = s.replace(m["old"], m["new"], m["count"])
-            open(p, "w").write(s)
             b = subprocess.run(["go", "build", "./..."], cwd=dst, env=env, capture_output=True, text=True)
             if b.returncode != 0:
                 results.append((m, "DOES-NOT-COMPILE", 0)); print(m["prop"], m["name"], "DOES-NOT-COMPILE", b.stderr[-300:]); continue
